@@ -137,6 +137,24 @@ def m_panic(I, st, args, dty, site):
             break
     if cause is None and I.ambient:
         cause = I.ambient[-1]
+    if cause is None:
+        # raised in the arm of a match that took the failing variant of a Result / Option, in this very function
+        fid = site.get('fid') if isinstance(site, dict) else None
+        for n in st.notes:
+            if isinstance(n, tuple) and n and n[0] == 'failing' and n[1] == fid:
+                cause = n[2]
+        if cause is None and fid in st.frames:
+            # ... or a local of this function holds a Result / Option that can only be the failing variant on this path
+            for l, v in st.frames[fid].items():
+                if isinstance(l, int) and l >= 0 and v is not None and v[0] == 'e' and v[1] in (RESULT, OPTION):
+                    bad = 1 if v[1] == RESULT else 0
+                    if set(v[2]) == {bad}:
+                        c = None
+                        for f in v[2][bad]:
+                            c = c or cause_of(origin_of(I, st, f))
+                        if c is None:
+                            c = none_org(v)
+                        cause = cause or c
     I.record(o, False, st, 'explicit panic reachable', cause=cause or 'unattributed')
     for h in I.panic_hooks:
         h(I, st, site, cause or 'unattributed')
